@@ -13,6 +13,7 @@ def register(reg):
     register_validation(reg)
     register_proxies(reg)
     register_strings(reg)
+    register_tree(reg)
 
     @reg.specfun("as_bytes")
     def as_bytes(ex, st, args, cx):
@@ -243,3 +244,16 @@ def register_strings(reg):
         for t in (lower, upper):
             st.assume((z3.Length(t) == 0) == (z3.Length(x) == 0))
         return o.str_(z3.If(tr, z3.If(opt == V.str(z3.StringVal("lower")), lower, upper), x))
+
+
+def register_tree(reg):
+    @reg.specfun("fval")
+    def fval(ex, st, args, cx):
+        """value a field reads from a configuration: a virtual field's getter result, the stored datum otherwise"""
+        w, o, V = ex.w, ex.o, ex.w.V
+        f, cfg, k = args[0].e, args[1], args[2].e
+        d = w.rep(o.r(cfg), 3)
+        stored = z3.Select(st.rd("$map", d), k)
+        getter = st.rd("VirtualField.getter", V.r(f))
+        virt = w.fun("usercall1_res", "V", "V", "V")(getter, cfg.e)
+        return SV(z3.If(o.is_type(f, "ref:VirtualFieldMixin"), virt, stored))
